@@ -155,7 +155,29 @@ func nearTie(base int64, limit int64, scale float64) int64 {
 
 func Gen(t *rapid.T) *Case {
 	var f float64
-	switch rapid.IntRange(0, 5).Draw(t, "fSel") {
+	switch rapid.IntRange(0, 6).Draw(t, "fSel") {
+	case 6: // a rate next to an integer: a few ulps or a tiny epsilon away (an "is it an integer rate" test must be exact)
+		base := float64(rapid.IntRange(1, 1000000).Draw(t, "nearInt"))
+		if rapid.Bool().Draw(t, "nearStd") {
+			base = rapid.SampledFrom(StdRates).Draw(t, "nearStdRate")
+		}
+		if rapid.Bool().Draw(t, "byUlps") {
+			f = base
+			up := rapid.Bool().Draw(t, "up")
+			for k := rapid.IntRange(1, 300).Draw(t, "ulps"); k > 0; k-- {
+				if up {
+					f = math.Nextafter(f, math.Inf(1))
+				} else {
+					f = math.Nextafter(f, 0)
+				}
+			}
+		} else {
+			eps := math.Ldexp(1, -rapid.IntRange(14, 45).Draw(t, "epsExp"))
+			if rapid.Bool().Draw(t, "epsNeg") {
+				eps = -eps
+			}
+			f = base + eps
+		}
 	case 0:
 		f = rapid.SampledFrom(StdRates).Draw(t, "std")
 	case 1:
@@ -178,11 +200,17 @@ func Gen(t *rapid.T) *Case {
 	k := rapid.IntRange(1, 6).Draw(t, "k")
 	for i := 0; i < k; i++ {
 		n := rapid.Int64Range(0, maxN).Draw(t, "n")
+		if rapid.IntRange(0, 3).Draw(t, "longSpan") == 0 { // long spans: errors that grow with the span show here
+			n = maxN - rapid.Int64Range(0, maxN/16).Draw(t, "fromEnd")
+		}
 		if rapid.Bool().Draw(t, "tieN") {
 			n = nearTie(n, maxN, 1e9/f)
 		}
 		c.Ns = append(c.Ns, n)
 		d := rapid.Int64Range(0, day).Draw(t, "d")
+		if rapid.IntRange(0, 3).Draw(t, "longD") == 0 {
+			d = day - rapid.Int64Range(0, day/16).Draw(t, "dFromEnd")
+		}
 		if rapid.Bool().Draw(t, "tieD") {
 			d = nearTie(d, day, f/1e9)
 		}
